@@ -237,7 +237,8 @@ def explore(chk, budget=1):
             yn[int(g.integers(0, len(y)))] = -float(g.choice([1e-9, 0.5]))
             run_oracle(chk, 'negative', dict(x=x.tolist(), y=yn.tolist(), k=int(g.choice([1, 3])) if len(x) > 3 else 1))
     for extra in (dict(), dict(scale=1e-9), dict(scale=1e-12, table=True, nx=41, na=6), dict(offset=1.5e8, span=5000., na=11), dict(table=True, nx=41, na=6), dict(table=True, nx=41, na=41), dict(table=True, nx=24, na=24), dict(table=True, nx=16, na=16, offset=1.5e8, span=5000.), dict(table=True, nx=41, na=6, counts='int64'), dict(table=True, nx=24, na=9, counts='uint16'), dict(table=True, nx=41, na=6, counts='float32'),
-                  dict(kx=1, ky=3, coarse=True), dict(kx=2, ky=2, coarse=True), dict(kx=3, ky=3), dict(kx=3, ky=1, coarse=True), dict(kx=1, ky=1, coarse=True), dict(kx=2, ky=1)):
+                  dict(kx=1, ky=3, coarse=True), dict(kx=2, ky=2, coarse=True), dict(kx=3, ky=3), dict(kx=3, ky=1, coarse=True), dict(kx=1, ky=1, coarse=True), dict(kx=2, ky=1),
+                  dict(nx=1500, na=6), dict(nx=2046, na=6, table=True)):       # random-variable grids beyond a thousand nodes
         run_oracle(chk, 'aux', dict(seed=int(g.integers(1, 10 ** 6)), **extra))
     replies = drv.run()
     for (x, y, us, xs, ip, ic, nx, ny), rep in zip(jobs, replies):
